@@ -420,6 +420,25 @@ fn check_is_valid_implementation(
             }
         }
 
+        // field may include additional arguments not defined in implementedField,
+        // but any additional argument must not be required
+        for impl_arg in impl_field.arguments() {
+            if !field.arguments.contains_key(&impl_arg.name)
+                && !impl_arg.ty.is_nullable()
+                && impl_arg.default_value.is_none()
+            {
+                return Err(format!(
+                    "Field \"{}.{}\" has a required argument \"{}\" which is not defined by interface \"{}.{}\"",
+                    implementing_type.name(),
+                    field.name,
+                    impl_arg.name,
+                    implemented_type.name,
+                    field.name,
+                )
+                .into());
+            }
+        }
+
         // field must return a type which is equal to or a sub-type of (covariant) the
         // return type of implementedField field’s return type
         if !impl_field.ty().is_subtype(&field.ty) {
